@@ -24,7 +24,11 @@ Definition history (w : rw) (now : Z) : Z * Z :=
 
 Definition excess2 (accepts total : Z) : Z := 2 * (total - protection) - k2 * accepts.
 
-Inductive outcome := OK | AcceptableErr | UnacceptableErr | Panics | PanicsNil.   (* panic(v), panic(nil) *)
+Inductive outcome :=
+| OK | AcceptableErr | UnacceptableErr
+| Panics | PanicsNil          (* panic(v), panic(nil) *)
+| InnerUnavailable.           (* the protected function itself returns ErrServiceUnavailable (an inner dependency's
+                                 breaker is open) although THIS breaker let the call in: an ordinary error for this one *)
 (* the caller's acceptable-predicate, as a table over the outcomes of req: any predicate is some such
    table; the driver uses these four.  A predicate may REJECT a nil error (it judges something else,
    e.g. a captured response code) and may accept non-nil errors. *)
@@ -41,8 +45,8 @@ Definition pred_ok (p : pred) (o : outcome) : bool :=
   | OK, _ => false
   | AcceptableErr, PNone => false
   | AcceptableErr, _ => true
-  | UnacceptableErr, PAll => true
-  | UnacceptableErr, _ => false
+  | (UnacceptableErr | InnerUnavailable), PAll => true
+  | (UnacceptableErr | InnerUnavailable), _ => false
   end.
 
 Inductive kind :=
